@@ -226,9 +226,10 @@ fn worker(args: &WorkerArgs, progs: &[Prog]) -> ShardStats {
     let per_prog: u64 = if prop == "C19" { 0 } else { args.get_u64("runs", if thorough { 5000 } else { 600 }) };
     let eligible: Vec<usize> = (0..progs.len())
         // programs with a model declaration take part in C05 (immediate visibility also holds for
-        // member relations, whose queries read the `all` copies); the other monitors do not know
+        // member relations, whose queries read the `all` copies), in C06 (both families are
+        // surjective) and in C20 (transcripts need no reference); the other monitors do not know
         // the own / all split
-        .filter(|i| progs[*i].model.is_none() || prop == "C05")
+        .filter(|i| progs[*i].model.is_none() || matches!(prop, "C05" | "C06" | "C20"))
         .filter(|i| match prop {
             "C06" => progs[*i].surjective,
             "C15" => progs[*i].program.sorts.iter().any(|s| matches!(s.kind, lang::SortKind::Enum(_))),
